@@ -115,6 +115,10 @@ PROP = {
         "the request-by-request diff of the worker logs against the Lean model is the TIE (it fails on any request-level "
         "change, also a harmless one, and is then reported as `no-failing-input-found`); the property itself is judged by "
         "the keyspace monitor",
+        "generated datasets are what a Redis server can hold: stream entry ids above 0-0, strictly increasing, none above the "
+        "last id (enforced by the Lean description's wf: an input violating it - also a replayed one - is skipped and "
+        "counted, not judged); under replaceHashTag the rewritten keys are kept distinct per target DB (colliding target "
+        "keys are the user's responsibility)",
         "which value types a target version can RESTORE (double: 4.x <= 14, 5/6 <= 15, 7.x <= 21, 8.x all) is a transcription",
     ],
     "partial": [
